@@ -151,3 +151,104 @@ Qed.
 (* Unpack never panics where the code calls it: blocks.go:373 guards it with `!isStart` *)
 Lemma block_skip_ok r : exists i sub, block_skip r = GoSem.Ok (i, sub).
 Proof. destruct r as [[i sub]|]; cbn; eauto. Qed.
+
+(* ------------------------------------------------------------------ siblings with out-of-flow boxes *)
+
+Section SiblingsProofs.
+  Variable U : Type.
+  Notation child := (child U).
+  Notation content := (sib_content_from U).
+
+  Lemma sib_content_split (cs : list child) j k :
+    j <= k ->
+    content cs j = flat_map c_units (firstn (k - j) (skipn j cs)) ++ content cs k.
+  Proof.
+    intros Hjk. unfold sib_content_from.
+    rewrite <- (firstn_skipn (k - j) (skipn j cs)) at 1.
+    rewrite flat_map_app. f_equal. rewrite skipn_skipn.
+    replace (k - j + j) with k by lia. reflexivity.
+  Qed.
+
+  (* resuming at the first removed child conserves the content, wherever the break is *)
+  Theorem rewind_at_first_removed_ok (cs : list child) j :
+    step_ok nat U (content cs) (rewound_step U cs j j).
+  Proof.
+    unfold step_ok, rewound_step. cbn [skip placed resume content_opt].
+    rewrite (sib_content_split cs 0 j) by lia.
+    now rewrite Nat.sub_0_r.
+  Qed.
+
+  (* every rewind the scan of findEarlierPageBreak finds is a consistent step *)
+  Corollary find_earlier_step_ok (avoid_after : nat -> bool) (cs : list child) s :
+    find_earlier_step U avoid_after cs = Some s -> step_ok nat U (content cs) s.
+  Proof.
+    unfold find_earlier_step. destruct (find_earlier_break U avoid_after cs) as [j|]; cbn; [|discriminate].
+    intros [= <-]. apply rewind_at_first_removed_ok.
+  Qed.
+
+  (* resuming at any later child r is consistent if and only if the children j .. r-1 (the
+     out-of-flow boxes between the break and the next in-flow sibling, when r is that
+     sibling) have no content *)
+  Theorem rewind_at_later_child_iff (cs : list child) j r :
+    j <= r ->
+    (step_ok nat U (content cs) (rewound_step U cs j r) <->
+     flat_map c_units (firstn (r - j) (skipn j cs)) = []).
+  Proof.
+    intros Hjr. unfold step_ok, rewound_step. cbn [skip placed resume content_opt].
+    rewrite (sib_content_split cs 0 j) by lia. rewrite Nat.sub_0_r. cbn [skipn].
+    rewrite (sib_content_split cs j r) by lia.
+    split.
+    - intros H. apply app_inv_head in H.
+      rewrite <- (app_nil_l (content cs r)) in H at 2.
+      now apply app_inv_tail in H.
+    - intros ->. reflexivity.
+  Qed.
+
+  Corollary rewind_skipping_out_of_flow_loses (cs : list child) j r :
+    j <= r ->
+    flat_map c_units (firstn (r - j) (skipn j cs)) <> [] ->
+    ~ step_ok nat U (content cs) (rewound_step U cs j r).
+  Proof. intros Hjr Hne H. apply Hne. now apply rewind_at_later_child_iff. Qed.
+End SiblingsProofs.
+
+(* ------------------------------------------------------------------ a table row split between two pages *)
+
+Section RowSplitProofs.
+  Variable U : Type.
+
+  (* with tables.go:183 every cell is conserved, finished or not *)
+  Theorem row_split_cell_conserved (c : list U) p :
+    p <= length c -> cell_two_pages U true c p = c.
+  Proof.
+    intros Hp. unfold cell_two_pages, cell_record, cell_skip.
+    destruct (p <? length c) eqn:E.
+    - apply firstn_skipn.
+    - apply Nat.ltb_ge in E. assert (p = length c) by lia. subst p.
+      rewrite firstn_all, skipn_all. apply app_nil_r.
+  Qed.
+
+  (* reading a missing key as the nil stack lays a finished cell out twice *)
+  Theorem row_split_nil_stack_duplicates (c : list U) :
+    cell_two_pages U false c (length c) = c ++ c.
+  Proof.
+    unfold cell_two_pages, cell_record, cell_skip. rewrite Nat.ltb_irrefl.
+    now rewrite firstn_all.
+  Qed.
+
+  Corollary row_split_nil_stack_not_conserved (c : list U) :
+    c <> [] -> cell_two_pages U false c (length c) <> c.
+  Proof.
+    intros Hne H. rewrite row_split_nil_stack_duplicates in H.
+    rewrite <- (app_nil_r c) in H at 3. apply app_inv_head in H. contradiction.
+  Qed.
+
+  (* a continued cell that places nothing on a page: conserved when it resumes where it
+     was, its first s units twice when it restarts (tables.go:225) *)
+  Theorem cell_nothing_fits_resume_ok (c : list U) s :
+    cell_three_pages U false c s = c.
+  Proof. unfold cell_three_pages. cbn. apply firstn_skipn. Qed.
+
+  Theorem cell_nothing_fits_restart_duplicates (c : list U) s :
+    cell_three_pages U true c s = firstn s c ++ c.
+  Proof. reflexivity. Qed.
+End RowSplitProofs.
